@@ -18,6 +18,7 @@ from .common import struct_ob, formula_ob, guard, last_return, U
 from . import mcmc
 from ..report import AnalysisError
 from ..term import Resolver, pmatch, find_all, abstract, anf_of
+from ..seq import Layouts, UNKNOWN, show
 
 FLOORS = {"pair-append": 5, "append-provenance": 4, "init-pair": 3, "exchange-pair": 3,
           "replace-last": 2, "mode": 3, "ownership": 6, "walker-pair": 1, "ensemble-append": 1,
@@ -111,7 +112,7 @@ def run(prog, tier):
     obs.append(struct_ob("walker-pair", qual(c, aw), ok, why, erel, aw.lineno))
 
     c, adv = prog.method("EnsembleSampler", "advance")
-    obs.append(_ensemble_append(c, adv, erel))
+    obs.append(_ensemble_append(c, adv, erel, prog))
 
     # ------------------------------------------------------------ init-pair
     obs.extend(_init_pairs(prog, stores))
@@ -250,38 +251,34 @@ def _provenance(fn, s_ev, p_ev):
     return True, ""
 
 
-def _ensemble_append(c, adv, erel):
+def _ensemble_append(c, adv, erel, prog=None):
     """One __advance_all and one .copy() append of each walker array per iteration; lists flow to the stores."""
-    loops = [n for n in adv.body if isinstance(n, ast.For)]
-    ok, why = False, "no iteration loop"
-    for lp in loops:
-        if U(lp.iter) != f"range({adv.args.args[1].arg})":
-            continue
-        calls = [U(s.value) for s in lp.body if isinstance(s, ast.Expr)]
-        adv_all = [x for x in calls if "advance_all" in x]
-        apps = {}
-        for s in lp.body:
-            if isinstance(s, ast.Expr) and isinstance(s.value, ast.Call) and isinstance(s.value.func, ast.Attribute) \
-                    and s.value.func.attr == "append":
-                apps[U(s.value.func.value)] = U(s.value.args[0])
-        src = {}
-        for st in adv.body:
-            if isinstance(st, ast.Assign) and len(st.targets) == 1:
-                src[U(st.targets[0])] = U(st.value)
-        s_list = [k for k, v in apps.items() if v == "self.walker_positions.copy()"]
-        p_list = [k for k, v in apps.items() if v == "self.walker_probs.copy()"]
-        if len(adv_all) == 1 and len(s_list) == 1 and len(p_list) == 1 and len(apps) == 2:
-            c1 = src.get("self.sample") == f"concatenate({s_list[0]})"
-            c2 = src.get("self.sample_probs") == f"concatenate({p_list[0]})"
-            c3 = src.get(s_list[0]) == "[] if self.sample is None else [self.sample]"
-            c4 = src.get(p_list[0]) == "[] if self.sample_probs is None else [self.sample_probs]"
-            ok = c1 and c2 and c3 and c4
-            why = f"{c1=} {c2=} {c3=} {c4=}"
-        else:
-            why = f"loop body appends {apps}, advance_all calls {adv_all}"
-    return struct_ob("ensemble-append", qual(c, adv), ok,
+    L = Layouts(adv, prog, c.module, c)
+    rz = L.rz
+    npar = adv.args.args[1].arg
+    why = []
+    loops = [n for n in adv.body if isinstance(n, ast.For) and pmatch(n.iter, f"range({npar})") is not None]
+    if len(loops) != 1:
+        why.append(f"{len(loops)} loops over range({npar})")
+    else:
+        adv_all = [s for s in loops[0].body if isinstance(s, ast.Expr) and isinstance(s.value, ast.Call) and "advance_all" in U(s.value.func)]
+        if len(adv_all) != 1:
+            why.append(f"{len(adv_all)} calls advancing all walkers per iteration")
+    stores = {}
+    for st in adv.body:
+        if isinstance(st, ast.Assign) and U(st.targets[0]) in ("self.sample", "self.sample_probs"):
+            stores[str(U(st.targets[0]))] = st
+    for attr, walker in (("self.sample", "self.walker_positions"), ("self.sample_probs", "self.walker_probs")):
+        st = stores.get(attr)
+        lay = None
+        if st is not None and isinstance(st.value, ast.Call) and U(st.value.func) == "concatenate" and st.value.args:
+            lay = L.layout_of(st.value.args[0], st)
+        want = (("splice", f"[] if {attr} is None else [{attr}]"), ("each", ("iter", f"range({npar})"), f"{walker}.copy()"))
+        if lay != want:
+            why.append(f"{attr} is rebuilt from {show(lay)}; expected the existing {attr} followed by one copy of {walker} per iteration")
+    return struct_ob("ensemble-append", qual(c, adv), not why,
                      "each iteration must advance all walkers once and append copies of both walker arrays, which are "
-                     "concatenated onto the existing sample / sample_probs: " + why, erel, adv.lineno)
+                     "concatenated onto the existing sample / sample_probs: " + "; ".join(why), erel, adv.lineno)
 
 
 def _init_pairs(prog, stores):
@@ -296,12 +293,18 @@ def _init_pairs(prog, stores):
         pcs = mcmc.posterior_calls(app[0])
         ok = len(pcs) == 1 and U(pcs[0].args[0]) == "self.get_last()"
         why = f"starting log-probability is `{U(app[0].args[0])}`"
-        gl = prog.method("MetropolisChain", "get_last")[1]
-        ret = last_return(gl)
-        ok = ok and ret is not None and "p.samples[-1] for p in self.params" in U(ret.value)
-        # params are built from start
-        psites = prog.self_assignments(prog.cls("MetropolisChain"), "params", methods={"__init__"})
-        ok = ok and len(psites) == 1 and "Parameter(value=v, sigma=s) for v, s in zip(start, widths)" in U(psites[0][3])
+        glc, gl = prog.method("MetropolisChain", "get_last")
+        rg = Resolver(gl, prog, glc.module, glc)
+        rets_ = rg.return_terms()
+        ok = ok and len(rets_) == 1 and bool(find_all(rets_[0], "[_p.samples[-1] for _p in self.params]"))
+        # params are built from start, in order
+        Lp = Layouts(init, prog, c.module, c)
+        start_p, width_p = init.args.args[2].arg, init.args.args[3].arg
+        lay = Lp.state.get("self.params")
+        okp = lay == (("each", ("iter", f"zip({start_p}, {width_p})"), "Parameter(va0, va1)"),)
+        ok = ok and okp
+        if not okp:
+            why += f"; parameters are {show(lay)}, expected one Parameter(value, width) per element of zip({start_p}, {width_p})"
     out.append(struct_ob("init-pair", qual(c, init), ok,
                          "P[0] must be posterior(S[0]) for the stored start: " + why, rel, init.lineno))
     # HamiltonianChain
